@@ -16,6 +16,38 @@ CHECKS = {
             "sequential code; an oracle over many hostile inputs is what runtime monitoring can give.",
             "domain = the quantifier of C01 (valid UTF-8 names, finite numbers != -1); sizes <= 1000 tips quick / 50000 thorough. " + BASE_NOTE,
             "DESIGN.md §5 C01"),
+    "C03": ("structure-walker monitor after every step of random edit histories (invariants of the live pointer structure through public accessors + text-vs-structure via independent reader)",
+            "Held on every all-success history of the case list (28 operation kinds, arguments drawn from the live tree, ~800 distinct ordered op pairs per quick run). Sampled histories, not all programs.",
+            "only histories whose every step reported success are judged; start trees <= 200/1000 tips, <= 25/40 steps. " + BASE_NOTE,
+            "DESIGN.md §5 C03"),
+    "C04": ("index monitor (bitset/tip counts/depth/ranks vs walk), all-pairs split equality/hash agreement vs model splits, EdgeIndex vs shadow map over capacity x load factor grid, 24x24 quartet presentations",
+            "Held on all generated trees/pairs/operation sequences; the capacity x load-factor grid and the 24x24 presentations are enumerated completely per case, trees and histories are sampled.",
+            "capacity >= 1, load factor > 0; bitset may be either side of the split. " + BASE_NOTE,
+            "DESIGN.md §5 C04"),
+    "C05": ("reference-model monitor: (tip set, split->length map, distance matrix, root distances) before/after every re-rooting / unrooting / reordering; outgroup and midpoint clauses on the model",
+            "Held for every inner node as new root (<= 60 tips, sampled above), every clade/complement (small trees) and sampled non-clades x strict x remove, on every generated tree. Sampled trees.",
+            "lengths in [1e-6,1e3] plus zeros/ties; path sums to 1e-9 relative; halves of the cut branch bitwise. " + BASE_NOTE,
+            "DESIGN.md §5 C05"),
+    "C06": ("reference-model monitor: pruned tree vs model restriction (splits, path sums, no degree-2 node), name look-ups after pruning, library and gotree prune",
+            "Held on every (tree, subset) pair of the case list incl. whole clades, tips at the root, cherries, one side of the root; sampled.",
+            ">= 3 tips left; supports of merged branches not compared. " + BASE_NOTE,
+            "DESIGN.md §5 C06"),
+    "C07": ("reference-model monitor: expected split set from the documented predicate with thresholds tied to the tree's own values (+-1 ulp); refinement clauses for Resolve; library and CLI",
+            "Held on all generated trees x thresholds; sampled.",
+            "root split of rooted trees unasserted; absent inner lengths undecidable for the length criterion. " + BASE_NOTE,
+            "DESIGN.md §5 C07"),
+    "C08": ("reference-model monitor: BipartitionStats / WeightedBipartitionStats / CommonEdges / CLI table vs set algebra on model split maps; swap and presentation metamorphic checks; taxon-mismatch rejection",
+            "Held on all generated pairs (independent, identical, contraction, refinement, NNI neighbour, star) x tips x identical-only; sampled.",
+            "unrooted pairs on >= 4 common taxa; weighted on trees with all lengths. " + BASE_NOTE,
+            "DESIGN.md §5 C08"),
+    "C09": ("reference-model monitor: consensus text vs naive frequency table over model splits; exact dyadic boundaries; order/rooting/rotation invariance; rejection clauses; library and CLI",
+            "Held on all generated collections (1..40 trees, rooted and unrooted mixed) x cutoffs; sampled.",
+            "all lengths present; near-boundary splits excluded for non-dyadic cutoffs. " + BASE_NOTE,
+            "DESIGN.md §5 C09"),
+    "C10": ("reference-model monitor: supports read through accessors vs brute-force split membership / transfer distance on the model; invariance and rejection clauses; library and CLI",
+            "Held on all generated (reference, bootstrap collection) cases; sampled.",
+            "branches with light side >= 2; single-threaded (threads are C11). " + BASE_NOTE,
+            "DESIGN.md §5 C10"),
 }
 
 PENDING = {}
